@@ -861,6 +861,8 @@ class BytecodeCompiler(Visitor):
     def _visit_compare(self, e: Compare, ctx: None):
         attrs = self._location_to_attributes(e.loc)
         args = [self._visit_expr(arg, ctx) for arg in e.args]
+        if len(args) > 2 and getattr(self, '_comp_iterable_depth', 0) > 0:
+            return self._compare_chain_in_iterable(e, args, attrs)
         # Equality is structural (see `_eval_eq`), which no `==` node expresses,
         # so the chain becomes a conjunction of pairwise tests.  A walrus binds
         # each middle operand so it is evaluated once, as Python's chain does.
@@ -899,6 +901,50 @@ class BytecodeCompiler(Visitor):
             return clauses[0]
         return pyast.BoolOp(op=pyast.And(), values=clauses, **attrs)
 
+    def _compare_chain_in_iterable(self, e: Compare, args: list[pyast.expr], attrs) -> pyast.expr:
+        """A comparison chain where Python allows no walrus (the iterable of a
+        comprehension): the operands are bound as lambda parameters instead,
+
+            (lambda t0, t1: t0 < t1 and (lambda t2: t1 < t2)(<c>))(<a>, <b>)
+
+        so each is still evaluated once, and only if the chain gets that far."""
+        names = [str(self.gensym.fresh('__fpy_cmp')) for _ in args]
+
+        def load(i: int) -> pyast.expr:
+            return pyast.Name(id=names[i], ctx=pyast.Load(), **attrs)
+
+        def test(i: int) -> pyast.expr:
+            op = e.ops[i]
+            if op is CompareOp.EQ or op is CompareOp.NE:
+                call = pyast.Call(
+                    func=pyast.Name(id='__fpy_eq', ctx=pyast.Load(), **attrs),
+                    args=[load(i), load(i + 1)], keywords=[], **attrs,
+                )
+                return call if op is CompareOp.EQ else pyast.UnaryOp(op=pyast.Not(), operand=call, **attrs)
+            return pyast.Compare(
+                self._ordered_guard(load(i), op, attrs),
+                [self._visit_compare_op(op)],
+                [self._ordered_guard(load(i + 1), op, attrs)], **attrs,
+            )
+
+        def bind(params: list[int], body: pyast.expr, values: list[pyast.expr]) -> pyast.expr:
+            fn = pyast.Lambda(
+                args=pyast.arguments(
+                    posonlyargs=[], args=[pyast.arg(arg=names[i], **attrs) for i in params],
+                    kwonlyargs=[], kw_defaults=[], defaults=[],
+                ),
+                body=body, **attrs,
+            )
+            return pyast.Call(func=fn, args=values, keywords=[], **attrs)
+
+        rest: pyast.expr | None = None
+        for i in range(len(e.ops) - 1, 0, -1):
+            body = test(i) if rest is None else pyast.BoolOp(op=pyast.And(), values=[test(i), rest], **attrs)
+            rest = bind([i + 1], body, [args[i + 1]])
+        assert rest is not None
+        first = pyast.BoolOp(op=pyast.And(), values=[test(0), rest], **attrs)
+        return bind([0, 1], first, [args[0], args[1]])
+
     def _visit_tuple_expr(self, e: TupleExpr, ctx: None):
         args = [self._visit_expr(elt, ctx) for elt in e.elts]
         attrs = self._location_to_attributes(e.loc)
@@ -929,7 +975,12 @@ class BytecodeCompiler(Visitor):
 
     def _visit_list_comp(self, e: ListComp, ctx: None):
         targets = [self._visit_target(target) for target in e.targets]
-        iterables = [self._visit_expr(iterable, ctx) for iterable in e.iterables]
+        # Python allows no assignment expression in a comprehension's iterables
+        self._comp_iterable_depth = getattr(self, '_comp_iterable_depth', 0) + 1
+        try:
+            iterables = [self._visit_expr(iterable, ctx) for iterable in e.iterables]
+        finally:
+            self._comp_iterable_depth -= 1
 
         # create comprehension generators
         generators = [
